@@ -306,6 +306,40 @@ def build(S, tier):
             outs = [o for q in v["parts"][:3] for o in q.outs]
             S.prove(f"{fq}#ensures.sum_of_parts@{i}", z3.And([R(r.get((0, d))) == sum(R(o.get((0, d))) for o in outs) for d in range(3)] + [z3.BoolVal(len(outs) == 4)]), hyps=p.pc)
 
+    # the same real operation object twice in one composite (`op * 2`, `a + b + a`): two independent draws are added
+    for cls in ("Box", "Ball", "Sphere"):
+        def run_twice(I, cls=cls):
+            step = I.path.fresh("step")
+            I.path.assume(step.t > 0)
+            part = I.call(I.get_class(OPS + "displacement." + cls), [step], {})
+            comp = I.call(I.getattr(part, "__mul__"), [2], {})
+            ctx, rng, _ = make_ctx(I)
+            r = I.call(I.getattr(comp, "calculate"), [ctx], {})
+            n1 = len(rng.elems)
+            # the two single proposals on the same draws, from fresh objects
+            half = n1 // 2
+            vals = [e[0] for e in rng.elems]
+            singles = []
+            for chunk in (vals[:half], vals[half:]):
+                ctx2, _, _ = make_ctx(I, script=list(chunk))
+                singles.append(I.call(I.getattr(I.call(I.get_class(OPS + "displacement." + cls), [step], {}), "calculate"), [ctx2], {}))
+            return dict(r=r, singles=singles, n=n1)
+
+        fq = f"{OPS}composite.CompositeOperation.calculate[{cls} * 2]"
+        for i, p in enumerate(S.explore(run_twice, fq)):
+            S.adopt(p, prefix=f"{cls}*2:")
+            if p.status != "return":
+                if p.status == "raise":
+                    S.prove(f"{fq}#noraise@{i}", False, kind="noraise", why=f"raises {p.exc!r}")
+                continue
+            v = p.value
+            ok = isinstance(v["r"], Tensor) and all(isinstance(x, Tensor) and x.shape == v["r"].shape for x in v["singles"]) and v["n"] % 2 == 0
+            S.prove(f"{fq}#ensures.same_object_twice_gives_two_independent_proposals.shape@{i}", ok, kind="ensures")
+            if ok:
+                a_, b_ = v["singles"]
+                S.prove(f"{fq}#ensures.same_object_twice_gives_the_sum_of_two_independent_proposals@{i}",
+                        z3.And([R(x) == R(y) + R(z_) for x, y, z_ in zip(v["r"].data, a_.data, b_.data)]), hyps=p.pc)
+
     # ------------------------------------------------------------------ deformations
     def run_def(I, cls, masked, involute=True):
         mx = I.path.fresh("max_value")
